@@ -195,3 +195,43 @@ def test_mutable_defaults_are_per_process():
         assert simhelpers.task_count.__defaults__ == ([],)  # the parent's default is untouched
         totals.add(tuple(counts))
     assert len(totals) > 1
+
+
+def _recycle_run(seed, maxtasks, n=9, procs=3):
+    ch, tr, st, sched, mp = mk(seed)
+    shared = real_mp.RawArray(ctypes.c_double, n)
+    plain = np.zeros(n)
+    vals = []
+    try:
+        with mp.Pool(processes=procs, initializer=simhelpers.init_set_global, initargs=("w", shared, plain), maxtasksperchild=maxtasks) as pool:
+            for j, x in pool.imap_unordered(simhelpers.task_read_plain, range(n)):
+                vals.append((j, x))
+                plain[0] += 1.0  # the parent changes its own (private) copy while the pool is alive
+    finally:
+        sched.shutdown()
+    return vals, st, sched
+
+
+def test_maxtasksperchild_recycles_and_forks_from_current_parent_state():
+    saw_new_state = 0
+    for seed in range(30):
+        vals, st, sched = _recycle_run(seed, maxtasks=1)
+        assert sorted(j for j, _ in vals) == list(range(9))
+        assert st.faults.get("worker_recycled", 0) >= 6  # 9 tasks, 1 task per process, 3 initial processes
+        assert len(sched.all_workers) >= 9
+        assert not alive(sched)
+        # the three initial processes were forked at Pool(): they see 0; a replacement is forked
+        # later and sees what the parent had written by then
+        saw_new_state += any(x > 0 for _, x in vals)
+        assert sum(1 for _, x in vals if x == 0) >= 1
+    assert saw_new_state >= 20
+    for seed in range(10):
+        vals, st, sched = _recycle_run(seed, maxtasks=None)
+        assert all(x == 0 for _, x in vals) and not st.faults.get("worker_recycled")
+        assert len(sched.all_workers) == 3
+    with pytest.raises(ValueError):
+        ch, tr, st, sched, mp = mk(1)
+        try:
+            mp.Pool(2, maxtasksperchild=0)
+        finally:
+            sched.shutdown()
